@@ -153,17 +153,19 @@ lem('c18_conn_open', ['htp_connection.c'], CONN_H,
 # ======================================================================================================================
 CD_H = r'''
 static void cd_case(const unsigned char *a, int gave_up, int type) {          /* CDN is a constant */
-  htp_mpartp_t *parser = calloc(1, sizeof(*parser));
-  htp_multipart_part_t *part = calloc(1, sizeof(*part));
-  htp_header_t *h = calloc(1, sizeof(*h));
-  if (!parser || !part || !h) { free(parser); free(part); free(h); return; }
-  part->parser = parser; part->type = type;
-  C18_MK_TABLE(part->headers, 8);                                              /* = htp_table_create(4), see c18_alloc.h */
-  h->name = bstr_dup_c("content-disposition"); h->value = c18_bstr(CDN, a);
-  bstr *key = h->name ? bstr_dup(h->name) : NULL;                              /* htp_mpartp_parse_header: htp_table_add(part->headers, h->name, h) copies the key */
-  if (!part->headers || !h->name || !h->value || !key) {
-    bstr_free(key); bstr_free(h->name); bstr_free(h->value); free(h); htp_mpart_part_destroy(part, 0); free(parser); return; }
-  C18_TABLE_PUT(part->headers, key, h, HTP_TABLE_KEYS_COPIED);
+  htp_mpartp_t *parser = malloc(sizeof(*parser));
+  htp_multipart_part_t *part = malloc(sizeof(*part));
+  htp_header_t *h = malloc(sizeof(*h));
+  htp_table_t *t = malloc(sizeof(*t)); void **el = C18_ELEMS_RAW(8);
+  bstr *name = C18_BSTR_RAW(19), *key = C18_BSTR_RAW(19), *value = C18_BSTR_RAW(CDN);
+#define CLEAN free(parser); free(part); free(h); free(t); free(el); free(name); free(key); free(value)
+  C18_NEED(parser, CLEAN) C18_NEED(part, CLEAN) C18_NEED(h, CLEAN) C18_NEED(t, CLEAN) C18_NEED(el, CLEAN) C18_NEED(name, CLEAN) C18_NEED(key, CLEAN) C18_NEED(value, CLEAN)
+  *parser = (htp_mpartp_t){0}; *part = (htp_multipart_part_t){0}; *h = (htp_header_t){0};
+  C18_BSTR_INIT(name, 19, "content-disposition"); C18_BSTR_INIT(key, 19, "content-disposition"); C18_BSTR_INIT(value, CDN, a);
+  C18_TABLE_INIT(t, el, 8);                                                     /* = htp_table_create(4) in htp_mpart_part_create */
+  h->name = name; h->value = value;
+  C18_TABLE_PUT(t, key, h, HTP_TABLE_KEYS_COPIED);                              /* = htp_table_add(part->headers, h->name, h) in htp_mpartp_parse_header */
+  part->parser = parser; part->type = type; part->headers = t;
   htp_status_t rc = htp_mpart_part_parse_c_d(part);
   VASSERT(rc == HTP_OK || rc == HTP_DECLINED || rc == HTP_ERROR, "OK, DECLINED or ERROR");
 #ifdef KNOWN_F_C18_MPART_CD_FILE
